@@ -44,7 +44,12 @@ def block(s, rng):
         for gname in ("ncpr", "fcr", "fer", "mnc"):
             lines.append("q phq %s %s %s" % (s, gname, t))
             meta.append((gname, pH))
-    for bad in ("-1/100", "-1/1", "1401/100", "15/1", "141/10"):
+    # integer pH values passed as Python ints (not floats)
+    for k in rng.sample(range(0, 15), 5):
+        for gname in ("ncpr", "fcr", "fer", "mnc"):
+            lines.append("q phq %s %s %d" % (s, gname, k))
+            meta.append((gname, Fraction(k)))
+    for bad in ("-1/100", "-1/1", "1401/100", "15/1", "141/10", "-1", "15"):
         lines.append("q phq %s %s %s" % (s, rng.choice(["ncpr", "fcr", "fer", "mnc"]), bad))
         meta.append(("bad", None))
     lines.append("q pi " + s)
